@@ -84,7 +84,7 @@ pub proof fn lemma_nick_wf(o: VolatileState, n: VolatileState, a: String, b: Str
 }
 
 impl MainState {
-//@fn state/conn_cmds.rs MainState::process_nick unit=nick props=C15,C02,C03,C05 rules=R1,R2,R6,R6q,R14
+//@fn state/conn_cmds.rs MainState::process_nick unit=nick props=C15,C02,C03,C05,C11,C06,C04 rules=R1,R2,R6,R6q,R14
 //@callargs authenticate state,+Tracked(sig)
 //@spec
         requires
@@ -110,7 +110,12 @@ impl MainState {
                 nick_post(*old(state), *final(state), my_nick(*old(conn_state)), sk(nick), final(conn_state).user_state.source)
                 && final(conn_state).user_state.nick == Some(sk(nick))
                 && final(conn_state).user_state.source@ == source_spec(ConnUserState { nick: Some(sk(nick)), ..old(conn_state).user_state }),
-            state_wf(*final(state)), // @prop C04
+            sym(*final(state)), // @prop C04
+            chans_wf(*final(state)), // @prop C04,C08
+            no_empty_chan(*final(state)), // @prop C16
+            wallops_wf(*final(state)), // @prop C11,C06
+            counters_wf(*final(state)), // @prop C19
+            senders_distinct(*final(state)), // @prop C02,C01
 //@attr #[verifier::loop_isolation(false)]
 //@open
         broadcast use group_hash_axioms, bridge, string_eq, string_eq2, lemma_cover_is_exact;
@@ -155,13 +160,13 @@ impl MainState {
                         }
 //@before ~for u in state\.users\.values\(\)
                     proof {
-                        assert(state.users@ =~= o.users@.remove(a).insert(b, User { source: new_src, ..o.users@[a] }));
-                        assert forall|c: String| o.channels@.contains_key(c) implies
+                        assert(state.users@ =~= o.users@.remove(a).insert(b, User { source: new_src, ..o.users@[a] })); // @prop C15
+                        assert forall|c: String| o.channels@.contains_key(c) implies // @prop C15,C04
                             (if o.users@[a].channels@.contains(c) { chan_renamed(o.channels@[c], #[trigger] state.channels@[c], a, b) } else { state.channels@[c] == o.channels@[c] }) by {
                             if chans.contains(c) { assert(done.contains(c)); } else { assert(!done.contains(c)); }
                         }
-                        assert(state.wallops_users@ =~= rekey(o.wallops_users@, a, b));
-                        assert(nick_post(o, *state, a, b, new_src));
+                        assert(state.wallops_users@ =~= rekey(o.wallops_users@, a, b)); // @prop C15,C11,C06
+                        assert(nick_post(o, *state, a, b, new_src)); // @prop C15
                         lemma_nick_wf(o, *state, a, b, new_src);
                     }
                     let ghost fin = *state;
